@@ -52,7 +52,8 @@ Conforms == /\ calls = LC /\ bad = {}
             /\ IF case.op = "read_exact"       \* the destination slice beyond what was filled is not modelled
                THEN Len(Rec[line].buf) = case.n /\ vec = SubSeq(Rec[line].buf, 1, Len(vec))
                ELSE vec = Rec[line].buf
-Report == pc = "done" => PrintT(<<"T", line, Conforms>>)
+Report == pc = "done" => /\ PrintT(<<"T", line, Conforms>>)
+                         /\ (Conforms => PrintT(<<"A", ToJson(SetToSeq(acts))>>))
 
 \* configuration for files that hold only "print" / "pipe" records (nothing to replay)
 PInit == /\ line = 0
